@@ -259,6 +259,9 @@ func (w *cworld) render(it ReplyItem) string {
 	switch it.Kind {
 	case "result":
 		return fmt.Sprintf(`{"jsonrpc":"2.0","id":%s,"result":%s}`, id, res)
+	case "resultnullerr":
+		// a peer that always writes both members: a null error is no error object
+		return fmt.Sprintf(`{"jsonrpc":"2.0","id":%s,"result":%s,"error":null}`, id, res)
 	case "error":
 		return fmt.Sprintf(`{"jsonrpc":"2.0","id":%s,"error":{"code":%d,"message":"peer error %d","data":%s}}`, id, -31000-it.N, it.N, res)
 	case "unknown":
